@@ -33,7 +33,7 @@ RULE = (
     "position that rotates over map key, map value, list element, record field, metadata key and value, validity "
     "bounds, mint amount and redeemer, withdrawal amount and redeemer, an output of its own; plus the reproduced "
     "corpus case tx t(Qty: Int); every transaction of every emitted file is also resolved the way a client would: "
-    "exactly the declared keys through parse_resolve_request, then apply_args. "
+    "exactly the declared keys through parse_resolve_request, then apply_args; a third of the programs name the single-use parameter of their first transaction after a built-in symbol (fees, min_utxo, tip_slot, ...) or another name harvested from the source's string literals (kept when the front end accepts the program). "
     "Non-trivial = every case; distinct = distinct program text"
 )
 ASSUMPTIONS = ["policies needing scripts are not generated yet"]
